@@ -374,6 +374,20 @@ class Pipeline(Machine):
             # suit-validate stays where the generator put it, or becomes the last manifest member
             desc["SUIT_Envelope_Tagged"]["suit-manifest"]["suit-validate"] = dep_seq + \
                 desc["SUIT_Envelope_Tagged"]["suit-manifest"].get("suit-validate", [])
+        envd = desc["SUIT_Envelope_Tagged"]
+        if op["gen"] % 3 == 0 and envd.get("suit-integrated-payloads") and envd.get("suit-integrated-dependencies"):
+            # the integrated members of an envelope are one ordered map; a payload may stand between two dependencies
+            # (a dependency is just a member whose content is an envelope): payload, dependency, payload, ...
+            pays, deps = list(envd["suit-integrated-payloads"].items()), list(envd["suit-integrated-dependencies"].items())
+            mixed = []
+            while pays or deps:
+                if pays:
+                    mixed.append(pays.pop(0))
+                if deps:
+                    mixed.append(deps.pop(0))
+            envd["suit-integrated-payloads"] = dict(mixed)
+            del envd["suit-integrated-dependencies"]
+            ex["interleaved_members"] = ex.get("interleaved_members", 0) + 1
         same_desc_again = op["desc"] in model["descs"]
         out_rel = op["out"] + ".suit"
         ex["descriptions"] += 1
